@@ -3,6 +3,7 @@ package props
 import (
 	"context"
 	"crypto/tls"
+	"fmt"
 	"io"
 	"log"
 	"math/rand"
@@ -48,6 +49,44 @@ type Carrier struct {
 	ReqCount  *atomic.Int64 // HTTP requests that reached the server
 	RemoteOf  *sync.Map     // run id -> remote address of the connection its request arrived on
 	Inner     *inprocgrpc.Channel
+	// ReqBodyWrap, if set, wraps every request body before the library's handler sees it (set before use)
+	ReqBodyWrap func(io.ReadCloser) io.ReadCloser
+}
+
+// pieceReader hands out at most n bytes per Read (a body that arrives in small pieces: slow links, chunked
+// proxies); it never returns 0 bytes with a nil error.
+type pieceReader struct {
+	rc io.ReadCloser
+	n  int
+}
+
+func (p *pieceReader) Read(b []byte) (int, error) {
+	if len(b) > p.n {
+		b = b[:p.n]
+	}
+	return p.rc.Read(b)
+}
+func (p *pieceReader) Close() error { return p.rc.Close() }
+
+type pieceRT struct {
+	rt http.RoundTripper
+	n  int
+}
+
+func (p pieceRT) RoundTrip(r *http.Request) (*http.Response, error) {
+	resp, err := p.rt.RoundTrip(r)
+	if resp != nil && resp.Body != nil {
+		resp.Body = &pieceReader{resp.Body, p.n}
+	}
+	return resp, err
+}
+
+// InPieces makes both directions of an HTTP carrier deliver their bodies at most n bytes per Read.
+func (c *Carrier) InPieces(n int) *Carrier {
+	c.Name += fmt.Sprintf("-pieces%d", n)
+	c.ReqBodyWrap = func(b io.ReadCloser) io.ReadCloser { return &pieceReader{b, n} }
+	c.CC = &httpgrpc.Channel{Transport: pieceRT{c.Transport, n}, BaseURL: c.URL}
+	return c
 }
 
 func (c *Carrier) Close() {
@@ -159,10 +198,14 @@ func httpCarrier(name string, svc *Service, h http.Handler, base string, useTLS,
 	tr := newHTTPTransport()
 	reqCount := new(atomic.Int64)
 	remoteOf := new(sync.Map)
+	var self atomic.Pointer[Carrier]
 	ts = httptest.NewUnstartedServer(http.HandlerFunc(func(w http.ResponseWriter, r *http.Request) {
 		reqCount.Add(1)
 		if id := r.Header.Get("X-Verif-Run"); id != "" {
 			remoteOf.Store(id, r.RemoteAddr)
+		}
+		if c := self.Load(); c != nil && c.ReqBodyWrap != nil {
+			r.Body = c.ReqBodyWrap(r.Body)
 		}
 		h.ServeHTTP(w, r)
 	}))
@@ -221,6 +264,7 @@ func httpCarrier(name string, svc *Service, h http.Handler, base string, useTLS,
 	}
 	c := &Carrier{Name: name, HTTP: true, Svc: svc, URL: u, Transport: tr, ReqCount: reqCount, RemoteOf: remoteOf}
 	c.CC = &httpgrpc.Channel{Transport: tr, BaseURL: u}
+	self.Store(c)
 	c.close = append(c.close, func() {
 		tr.CloseIdleConnections()
 		ts.CloseClientConnections()
